@@ -179,14 +179,19 @@ func VerifyYouVersionState(prev, curr *types.Header) (err error) {
 		} else {
 			// 2.2 still on-going
 			isValid = isValid && curr.NextVersion == prev.NextVersion
-			if curr.NextApprovals < prevProto.UpgradeThreshold {
+			// the voting window is fixed by the proposal
+			isValid = isValid && curr.NextVoteBefore == prev.NextVoteBefore
+			if currentRound < prev.NextVoteBefore {
+				// still voting: each block adds at most one approval
 				isValid = isValid &&
-					curr.NextVoteBefore == prev.NextVoteBefore &&
-					curr.NextVoteBefore > currentRound
+					(curr.NextApprovals == prev.NextApprovals ||
+						curr.NextApprovals == prev.NextApprovals+1)
+			} else {
+				// voting is over: the proposal must have passed, and no more votes are counted
+				isValid = isValid &&
+					prev.NextApprovals >= prevProto.UpgradeThreshold &&
+					curr.NextApprovals == prev.NextApprovals
 			}
-			isValid = isValid &&
-				(curr.NextApprovals == prev.NextApprovals ||
-					curr.NextApprovals == prev.NextApprovals+1)
 			isValid = isValid && curr.NextSwitchOn == prev.NextSwitchOn
 		}
 	} else {
